@@ -12,7 +12,14 @@ import (
 	"golang.org/x/tools/go/ssa/ssautil"
 )
 
-const repoDir = "/repo"
+// repoDir is the tree under verification: /repo, or $VERIF_REPO (used to run the checks against a scratch
+// worktree carrying a seeded change without touching /repo).
+var repoDir = func() string {
+	if d := os.Getenv("VERIF_REPO"); d != "" {
+		return d
+	}
+	return "/repo"
+}()
 const modPath = "grol.io/grol"
 
 var verifDir = "/verif"
